@@ -31,8 +31,8 @@ def run():
     r = findings.Run("C13")
     quick = common.tier() == "quick"
     rnd = random.Random(common.seed() + 13)
-    seeds = ["0", "1", "2"] if quick else ["0", "1", "2", "3", "7", "42", "1000", "random"]
-    n_docs = 6 if quick else 30
+    seeds = ["0", "1", "2", "3", "5", "7"] if quick else ["0", "1", "2", "3", "5", "7", "9", "42", "1000", "random"]
+    n_docs = 16 if quick else 60
     optsets = [["-greedy"], ["-greedy", "-partition"], ["-greedy", "-size"], ["-greedy", "-storage"]]
     inputs = []
     for i in range(n_docs):
